@@ -138,3 +138,55 @@ def guarded_refill_needs_empty(prog, f, rule, cons=None):
                       'cleared first: entries that became zero keep their old value' % tgt, f, lp,
                       witness=' -> '.join('L%d' % x.lineno for x in wit if x.lineno))
     return n
+
+
+def index_cache_follows_inputs(prog, rule):
+    """MaterialIndexer._index_cache is a function of (_phases, _chemicals) (see _set_cache).  After any call that
+    re-binds one of the inputs, _set_cache() must run on every path before the method returns -- otherwise lookups
+    by phase key use the row positions of another phase tuple."""
+    from .effects import Effects
+    eff = Effects(prog)
+    c = prog.cls('MaterialIndexer', 'thermosteam/indexer.py')
+    sc = c.methods.get('_set_cache')
+    if sc is None:
+        rule.fail('MaterialIndexer._set_cache', 'missing', '_set_cache not found', None, None)
+        return
+    reads = {n.attr for n in walk_no_nested(sc.node) if isinstance(n, ast.Attribute) and isinstance(n.ctx, ast.Load) and src(n.value) == 'self'}
+    inputs = reads & {'_phases', '_chemicals'}
+    if inputs != {'_phases', '_chemicals'}:
+        rule.fail('MaterialIndexer._set_cache', 'key', 'the index cache is no longer keyed by (phases, chemicals)', sc, sc.node)
+        return
+    for f in c.methods.values():
+        if f.cls is not c or f.name in ('_set_cache', '_set_phases', '_load_chemicals'):
+            continue
+        cfg = None
+        for n in walk_no_nested(f.node):
+            if not (isinstance(n, ast.Call) and isinstance(n.func, ast.Attribute) and src(n.func.value) == 'self'):
+                continue
+            rb = eff.rebinds(c, n.func.attr)
+            if not (rb & inputs) or n.func.attr == '_set_cache' or '_index_cache' in rb and n.func.attr not in ('_set_phases', '_load_chemicals'):
+                continue
+            if cfg is None:
+                cfg = CFG(f.node)
+            st = n
+            while not isinstance(st, ast.stmt):
+                st = st._parent
+            node = cfg.node_of(st)
+
+            def is_refresh(nd):
+                for h in header_exprs(nd):
+                    if nd.kind != 'stmt':
+                        continue
+                    for x in ast.walk(h):
+                        if isinstance(x, ast.Call) and src(x.func) == 'self._set_cache':
+                            return True
+                        if isinstance(x, ast.Call) and isinstance(x.func, ast.Attribute) and src(x.func.value) == 'self' \
+                                and x.func.attr not in ('_set_phases', '_load_chemicals') and '_index_cache' in eff.rebinds(c, x.func.attr) and nd is not node:
+                            return True
+                return False
+            okk, wit = cfg.must_pass(node, lambda nd: nd is not node and is_refresh(nd))
+            if okk:
+                rule.ok(f.qualname, 'self.%s() re-binds %s; _set_cache() follows on every path' % (n.func.attr, sorted(rb & inputs)), f, st)
+            else:
+                rule.fail(f.qualname, 'index-cache-not-refreshed', 'self.%s() re-binds %s, the key of the index cache, but no _set_cache() follows: '
+                          'lookups keep using the row positions cached for the previous phases/chemicals' % (n.func.attr, sorted(rb & inputs)), f, st)
